@@ -241,11 +241,11 @@ def assignop (F : FloatOps R) (q : Quirks) (op : BinOp) (old rhs : Value R) : Re
 def incdec (F : FloatOps R) (k : IncKind) (old : Value R) : Res (Value R × Value R) :=
   match old with
   | .int n =>
-    let v := match k with | .preInc | .postInc => wrap (n + 1) | _ => wrap (n - 1)
-    .ok (.int v, match k with | .preInc | .preDec => .int v | _ => .int n)
+    let v := if k.isInc then wrap (n + 1) else wrap (n - 1)
+    .ok (.int v, if k.isPre then .int v else .int n)
   | .real x =>
-    let v := match k with | .preInc | .postInc => F.add x (F.ofInt 1) | _ => F.sub x (F.ofInt 1)
-    .ok (.real v, match k with | .preInc | .preDec => .real v | _ => .real x)
+    let v := if k.isInc then F.add x (F.ofInt 1) else F.sub x (F.ofInt 1)
+    .ok (.real v, if k.isPre then .real v else .real x)
   | _ => .err
 
 /-- F_INDEX: the 64-bit index is compared with the bounds, then narrowed with `(int)` -/
